@@ -109,6 +109,21 @@ class ToyMechAdapter(Adapter):
 
     def __init__(self, rng):
         self.n_out = int(rng.integers(1, 3))
+        self._init_mode(rng)
+
+    def _init_mode(self, rng):
+        # 'toggle': every evaluation switches sensitivities off and on again
+        # 'sticky': sensitivities are enabled once (before the history) and
+        #           then left alone, so that fix_parameters itself has to
+        #           keep the selection in step with the free parameters
+        self.mode = ['toggle', 'sticky'][int(rng.integers(2))]
+        self.cls = self.cls + '/' + self.mode
+
+    def _after_make(self, obj, twin):
+        if self.mode == 'sticky':
+            obj.enable_sensitivities(True)
+            twin.enable_sensitivities(True)
+        return obj, twin
 
     def names(self, obj):
         return list(obj.parameters())
@@ -116,13 +131,19 @@ class ToyMechAdapter(Adapter):
     def make(self):
         m = toys.ToyMulti(self.n_out)
         self.full_names = m.parameters()
-        self.sens_on = False
-        return chi.ReducedMechanisticModel(toys.ToyMulti(self.n_out)), m
+        return self._after_make(
+            chi.ReducedMechanisticModel(toys.ToyMulti(self.n_out)), m)
 
     def point(self, rng):
         return toys.toy_multi_params(rng, self.n_out)
 
     def evals(self, obj, x, mask):
+        if self.mode == 'sticky':
+            out = obj.simulate(x, TIMES)
+            if not isinstance(out, tuple):
+                return {'has_sensitivities': False}
+            return {'has_sensitivities': True,
+                    'simulate_with_sens': out[0], 'sens': out[1]}
         obj.enable_sensitivities(False)
         y = obj.simulate(x, TIMES)
         obj.enable_sensitivities(True)
@@ -130,6 +151,10 @@ class ToyMechAdapter(Adapter):
         return {'simulate': y, 'simulate_with_sens': y2, 'sens': s}
 
     def evals_twin(self, twin, xf, mask):
+        if self.mode == 'sticky':
+            y2, s = twin.simulate(xf, TIMES)
+            return {'has_sensitivities': True, 'simulate_with_sens': y2,
+                    'sens': s[:, :, mask]}
         twin.enable_sensitivities(False)
         y = twin.simulate(xf, TIMES)
         twin.enable_sensitivities(True)
@@ -143,6 +168,7 @@ class SbmlMechAdapter(ToyMechAdapter):
     rtol = 1e-7
 
     def __init__(self, rng):
+        self._init_mode(rng)
         self.direct = bool(rng.integers(2))
         self.reg = dict(dose=float(rng.uniform(1, 3)),
                         start=float(rng.uniform(0, 1)),
@@ -159,7 +185,8 @@ class SbmlMechAdapter(ToyMechAdapter):
     def make(self):
         m = self._model()
         self.full_names = m.parameters()
-        return chi.ReducedMechanisticModel(self._model()), m
+        return self._after_make(chi.ReducedMechanisticModel(self._model()),
+                                m)
 
     def point(self, rng):
         return rng.uniform(0.3, 2.0, len(self.full_names))
@@ -256,19 +283,30 @@ class LogLikelihoodAdapter(Adapter):
 
     def __init__(self, rng):
         self.case = GL.LLCase(rng, allow_empty=False)
+        # 's1_only': only evaluateS1 between the fix calls (the plain
+        # evaluations switch the sensitivities of the owned model off and
+        # would hide a stale sensitivity selection)
+        self.mode = ['all', 's1_only'][int(rng.integers(2))]
+        self.cls = 'LogLikelihood/' + self.mode
 
     def n_fixed(self, obj):
         return None
 
     def make(self):
         self.full_names = self.case.full_names()
-        return self.case.build(), self.case.build()
+        a, b = self.case.build(), self.case.build()
+        if self.mode == 's1_only':
+            x = self.case.point(np.random.default_rng(0))
+            a.evaluateS1(x)
+        return a, b
 
     def point(self, rng):
         return self.case.point(rng)
 
     def evals(self, obj, x, mask):
         s, g = obj.evaluateS1(x)
+        if self.mode == 's1_only' and mask is not None:
+            return {'s1_score': s, 'gradient': g}
         return {'value': obj(x), 'pointwise': obj.compute_pointwise_ll(x),
                 's1_score': s, 'gradient': g,
                 'value_after_s1': obj(x)}
@@ -276,6 +314,8 @@ class LogLikelihoodAdapter(Adapter):
     def evals_twin(self, twin, xf, mask):
         out = self.evals(twin, xf, None)
         out['gradient'] = np.asarray(out['gradient'])[mask]
+        if self.mode == 's1_only':
+            out = {k: out[k] for k in ('s1_score', 'gradient')}
         return out
 
 
